@@ -694,35 +694,26 @@ impl<'a> Serialize<'a> for CoverageFormat2<'a> {
         // range records
         let pos = s.allocate_size((range_count as usize) * RangeRecord::RAW_BYTE_LEN, true)?;
 
-        let mut last = glyphs[0] as u16;
-        let mut range = 0;
+        // one record per run of consecutive glyph ids (the runs CoverageTable::serialize counted)
+        let mut range = 0_usize;
+        let mut last = 0_u16;
         for (idx, g) in glyphs.iter().enumerate() {
             let g = *g as u16;
-            let range_pos = pos + range * RangeRecord::RAW_BYTE_LEN;
-            if last + 1 != g {
-                if range == 0 {
-                    //start glyph
-                    s.copy_assign(range_pos, g);
-
-                    //coverage index
-                    s.copy_assign(range_pos + 4, idx as u16);
-                } else {
-                    //end glyph
-                    s.copy_assign(range_pos + 2, last);
-                    range += 1;
-
-                    let new_range_pos = range_pos + RangeRecord::RAW_BYTE_LEN;
-                    //start glyph
-                    s.copy_assign(new_range_pos, g);
-                    //coverage index
-                    s.copy_assign(new_range_pos + 4, idx as u16);
+            if idx == 0 || last.checked_add(1) != Some(g) {
+                if range >= range_count as usize {
+                    return Err(s.set_err(SerializeErrorFlags::SERIALIZE_ERROR_OTHER));
                 }
+                let range_pos = pos + range * RangeRecord::RAW_BYTE_LEN;
+                //start glyph
+                s.copy_assign(range_pos, g);
+                //coverage index
+                s.copy_assign(range_pos + 4, idx as u16);
+                range += 1;
             }
+            //end glyph of the current range
+            s.copy_assign(pos + (range - 1) * RangeRecord::RAW_BYTE_LEN + 2, g);
             last = g;
         }
-
-        let last_range_pos = pos + range * RangeRecord::RAW_BYTE_LEN;
-        s.copy_assign(last_range_pos, last);
         Ok(())
     }
 }
@@ -968,6 +959,30 @@ mod test {
         );
         assert!(ret.is_ok());
         assert!(!s.in_error());
+    }
+
+    #[test]
+    fn test_serialize_coverage_format2_ranges() {
+        use write_fonts::read::{FontData, FontRead};
+        // 10 glyphs in 3 runs: more than 3 glyphs per run, so format 2 is chosen
+        let glyphs: Vec<u32> = vec![1, 2, 3, 4, 10, 11, 12, 13, 14, 20];
+        let mut s = Serializer::new(1024);
+        assert_eq!(s.start_serialize(), Ok(()));
+        assert!(CoverageTable::serialize(&mut s, &glyphs).is_ok());
+        assert!(!s.in_error());
+        s.end_serialize();
+        let bytes = s.copy_bytes();
+        let expected_bytes: [u8; 22] = [
+            0x00, 0x02, 0x00, 0x03, 0x00, 0x01, 0x00, 0x04, 0x00, 0x00, 0x00, 0x0a, 0x00, 0x0e, 0x00,
+            0x04, 0x00, 0x14, 0x00, 0x14, 0x00, 0x09,
+        ];
+        assert_eq!(bytes, expected_bytes);
+        let coverage = CoverageTable::read(FontData::new(&bytes)).unwrap();
+        let covered: Vec<u32> = coverage.iter().map(|g| g.to_u32()).collect();
+        assert_eq!(covered, glyphs);
+        for (i, g) in glyphs.iter().enumerate() {
+            assert_eq!(coverage.get(GlyphId::from(*g)), Some(i as u16));
+        }
     }
 
     #[test]
